@@ -400,7 +400,20 @@ func c02Backends(r *ev.Run, sub [][]byte, subVals [][]byte, subOps []op, violate
 		c1 := kv.ContentsFromIndex(j.i, sub, subVals)
 		what, a := c02BackendCase(j.backend, c1, subOps, caps, r)
 		if what != "" {
-			violate(fmt.Sprintf("c02 backend %s %s %v cap=%d/%d", j.backend, c1, a.Ops, a.Capacity, a.ValueCap), what, a)
+			// known root cause (see known_findings.jsonl): a node cache not larger than the number of internal
+			// nodes on the path being walked evicts an ancestor that is in use
+			tag := ""
+			var ks [][]byte
+			for k := range c1 {
+				ks = append(ks, []byte(k))
+			}
+			for _, o := range a.Ops {
+				ks = append(ks, o.Key)
+			}
+			if a.Capacity > 0 && a.Capacity <= uint64(triePathNodes(ks)) {
+				tag = " nodecap<=path"
+			}
+			violate(fmt.Sprintf("c02 backend %s %s %v cap=%d/%d%s", j.backend, c1, a.Ops, a.Capacity, a.ValueCap, tag), what, a)
 		}
 	})
 }
@@ -677,6 +690,80 @@ func c02Pressure(r *ev.Run, violate func(string, string, c02Artefact)) {
 			r.HarnessError("%s", what)
 			return
 		}
-		violate(fmt.Sprintf("c02 pressure %s cap=%d %v", cf.be, cf.cap, rounds), fmt.Sprintf("%s, 10-key tree reopened with a node cache of %d, rounds %v (%v): %s", cf.be, cf.cap, rounds, ops, what), c02Artefact{Mode: "pressure", Backend: cf.be, Capacity: cf.cap, Ops: ops})
+		tag := ""
+		var ks [][]byte
+		for _, k := range c02PressureBase {
+			ks = append(ks, []byte{k})
+		}
+		for _, o := range ops {
+			if o.Op == "ins" {
+				ks = append(ks, o.Key)
+			}
+		}
+		if cf.cap > 0 && cf.cap <= uint64(triePathNodes(ks)) {
+			tag = " nodecap<=path" // known root cause, see known_findings.jsonl
+		}
+		violate(fmt.Sprintf("c02 pressure %s cap=%d %v%s", cf.be, cf.cap, rounds, tag), fmt.Sprintf("%s, 10-key tree reopened with a node cache of %d, rounds %v (%v): %s", cf.be, cf.cap, rounds, ops, what), c02Artefact{Mode: "pressure", Backend: cf.be, Capacity: cf.cap, Ops: ops})
 	})
+}
+
+// triePathNodes is the number of internal nodes on the longest path of the tree holding the given keys
+// (a compressed binary trie: an internal node per branching point, a key that ends at the branching point
+// is the node's own leaf).
+func triePathNodes(keys [][]byte) int {
+	uniq := map[string]bool{}
+	var ks [][]byte
+	for _, k := range keys {
+		if !uniq[string(k)] {
+			uniq[string(k)] = true
+			ks = append(ks, k)
+		}
+	}
+	bit := func(k []byte, i int) bool { return k[i/8]&(0x80>>uint(i%8)) != 0 }
+	var rec func(ks [][]byte, from int) int
+	rec = func(ks [][]byte, from int) int {
+		if len(ks) <= 1 {
+			return 0
+		}
+		// common prefix length in bits
+		l := from
+		for {
+			stop := false
+			for _, k := range ks {
+				if len(k)*8 <= l {
+					stop = true
+				}
+			}
+			if stop {
+				break
+			}
+			b0 := bit(ks[0], l)
+			for _, k := range ks[1:] {
+				if bit(k, l) != b0 {
+					stop = true
+				}
+			}
+			if stop {
+				break
+			}
+			l++
+		}
+		var left, right [][]byte
+		for _, k := range ks {
+			if len(k)*8 <= l {
+				continue // the node's own leaf
+			}
+			if bit(k, l) {
+				right = append(right, k)
+			} else {
+				left = append(left, k)
+			}
+		}
+		a, b := rec(left, l+1), rec(right, l+1)
+		if b > a {
+			a = b
+		}
+		return 1 + a
+	}
+	return rec(ks, 0)
 }
